@@ -20,7 +20,8 @@ PID = "C06"
 LEVEL = "exploration"
 TECHNIQUE = ("boundary-sweep + generated-input robustness testing against a reference parser with limit intervals: "
              "totality / termination, 431-413 direction, exactly-one well-formed error response then close, and "
-             "bounded input consumption after the limit is crossed")
+             "bounded input consumption after the limit is crossed; refused message x pipelined followers x read-ahead under sampled "
+             "thread schedules (real worker pool, baton scheduler); coverage-guided atheris campaign")
 RULE = ("case = (byte stream, adjustments incl. both limits and recv_bytes); enumerated: heads of strict length L-1/L/L+1 "
         "around max_request_header_size x leading blank lines x terminated/unterminated, bodies of length B-1/B/B+1 around "
         "max_request_body_size x {Content-Length, chunked in 1..3 chunks} x recv sizes {1,3,64,8192}; oversize tokens "
@@ -230,6 +231,8 @@ def run_case_full(case):
 
 
 def run_case(case):
+    if case.get("sched"):
+        return run_sched(case)[0]
     if not isinstance(case.get("stream"), str):
         raise C.CaseInvalid("stream")
     try:
@@ -356,8 +359,32 @@ def fuzz_jobs(tier, seed, tag):
     return [{"kind": "fuzz", "runs": 300000, "seed": derive_seed(seed, tag, "fz", i), "seed_corpus": i % 4 != 3, "max_total_time": 600} for i in range(16)]
 
 
+# ---------------------------------------------------------------- refusal under thread interleavings
+def sched_cases():
+    """a refused message (400 / 431 / 413) with further requests behind it, arriving in the same read or a later one, with
+    read-ahead enabled: 'exactly one error response followed by closure' and 'never reaches the application' must hold for every
+    interleaving of the I/O thread (reading on) with the worker that writes the error response"""
+    for kind in ("bad_framing", "oversize", "oversize_body"):
+        for before in (0, 1):
+            for la in (1, 2, 5):
+                for arrival in ("later", "same", "split"):
+                    for after in (["req"], ["req", "req"], ["partial", "req"]):
+                        yield {"sched": True, "before": before, "kind": kind, "after": after, "arrival": arrival, "lookahead": la, "workers": 1 + (la == 5)}
+
+
+def run_sched(case, source=None):
+    from . import c11
+    from ..refhttp import response as RESP
+    c = {k: v for k, v in case.items() if k != "sched"}
+    fs, nt, labels, trace, sched = c11.run_case_full(c, source=source)
+    out = [{"sig": "C06/sched/" + f["sig"].split("/", 1)[1], "detail": "refused message with pipelined followers: " + f["detail"]} for f in fs]
+    return out, nt, set("sched-" + l for l in labels), trace, sched
+
+
 def jobs(tier, seed):
     js = [{"kind": "sweep_header"}, {"kind": "sweep_body"}]
+    for sh in range(3):
+        js.append({"kind": "sched", "n": 12 if tier == "quick" else 300, "seed": derive_seed(seed, "c06s", sh), "shard": sh, "nshards": 3})
     for sh in range(4):
         js.append({"kind": "oversize", "shard": sh, "nshards": 4})
     if tier == "thorough":
@@ -379,7 +406,22 @@ def run_job(job, col):
         col.record(case, fs, nontrivial=nt, labels=labels)
 
     k = job["kind"]
-    if k == "sweep_header":
+    if k == "sched":
+        import random
+        from .. import schedules as SCH
+        rnd = random.Random(job["seed"])
+        for i, c in enumerate(sched_cases()):
+            if i % job["nshards"] != job["shard"]:
+                continue
+            for j in range(job["n"] + 1):
+                cc = dict(c)
+                if j:
+                    cc.update(gran="line" if j % 3 == 2 else "sync", schedule={"kind": "hot", "seed": rnd.randrange(10 ** 9), "p_hot": 0.35, "p_cold": 0.02})
+                fs, nt, labels, trace, _s = run_sched(cc)
+                if fs and trace is not None and cc.get("schedule"):
+                    cc = dict(cc, schedule=SCH.replay_spec(trace))
+                col.record(cc, fs, nontrivial=nt, labels=labels)
+    elif k == "sweep_header":
         for c in sweep_header():
             one(c)
         col.exhaustive("head length L-2..L+2 around max_request_header_size in {30,64,100,257} x 0..2 blank lines x terminated/unterminated x recv sizes")
